@@ -123,7 +123,11 @@ func (f *upstreamLimiter) Load(name string) (flowcontrol.FlowControl, bool) {
 		default:
 			fc := fcw.FlowControl()
 			if fc != nil {
-				return fc, true
+				// the remote wrapper exists before the first answer of the
+				// limiter server gives it a limiter
+				if p, ok := fc.(flowcontrol.Pinner); !ok || p.Pin() != nil {
+					return fc, true
+				}
 			}
 			reason = "remote flowcontrol is not synced"
 		}
